@@ -2,6 +2,7 @@ package harness
 
 import (
 	"fmt"
+	"sort"
 	"strings"
 	"time"
 
@@ -192,6 +193,91 @@ func c34Engine() *Engine {
 						v.Replay["j"] = j
 						v.Replay["workload"] = w.Describe()
 						res.AddViolation(v)
+					}
+					// "replayed once": the known defect re-appends the variable records of a
+					// transaction that a cut recovery had applied but not yet checkpointed.
+					// Replay checkpoints after every transaction, so a single interruption
+					// can leave at most ONE transaction in that state. The client is a
+					// single task that waits for its flush, so a transaction never holds
+					// records of two requests: records of two different requests that both
+					// appear three times mean that the interrupted recovery had moved on to a
+					// later transaction without making the earlier one's replay final.
+					// (Only when every leftover WAL ends on a record boundary: after a torn
+					// last record the replay's own checkpoint records are appended behind
+					// the torn bytes, where the next start's scan never gets to - then all
+					// transactions are replayed again, which is the known defect at its
+					// widest and says nothing about the order of replay and checkpoint.)
+					walsWhole := true
+					for _, pth := range img1.Walk(dataRoot) {
+						if strings.HasSuffix(pth, ".walfile") {
+							if wb, ok := img1.FileBytes(pth); ok {
+								recs := parseWAL(wb)
+								if len(wb) > 0 && (len(recs) == 0 || recs[len(recs)-1].end != int64(len(wb))) {
+									walsWhole = false
+								}
+							}
+						}
+					}
+					if walsWhole {
+						reqOf := map[int64]int{}
+						for oi := lt.from; oi < lt.to; oi++ {
+							if w.Ops[oi].Kind != "write" {
+								continue
+							}
+							for _, wr := range w.Ops[oi].W {
+								for _, pt := range wr.Parts {
+									if pt.B.Variable {
+										for _, rcd := range pt.Recs {
+											reqOf[rcd.ID] = oi
+										}
+									}
+								}
+							}
+						}
+						triple := map[int]int64{}
+						for _, b := range buckets {
+							if !b.Variable || rc2.QErr[b.Key()] != nil {
+								continue
+							}
+							if _, t := lt.taint[b.Key()]; t {
+								continue
+							}
+							o := observe(b, rc2.Rows[b.Key()])
+							for id, cnt := range o.varCnt {
+								if oi, ok := reqOf[id]; ok && cnt >= 3 {
+									triple[oi] = id
+								}
+							}
+						}
+						if len(triple) >= 2 && verboseLog {
+							for i, op := range rlog {
+								if op.Mutating() || op.Kind == simos.OpSyncFS || op.Kind == simos.OpSync {
+									mark := " "
+									if i == j-1 {
+										mark = "<<< cut"
+									}
+									fmt.Printf("   R1 %3d %s %s off=%d %s\n", i, opLabel(op), strings.TrimPrefix(op.Path, dataRoot), op.Off, mark)
+								}
+							}
+							for i, op := range rc2.Log {
+								if op.Mutating() || op.Kind == simos.OpSyncFS {
+									fmt.Printf("   R2 %3d %s %s off=%d\n", i, opLabel(op), strings.TrimPrefix(op.Path, dataRoot), op.Off)
+								}
+							}
+							for _, b := range buckets {
+								fmt.Printf("   COUNTS %s %v\n", b.Key(), observe(b, rc2.Rows[b.Key()]).varCnt)
+							}
+						}
+						if len(triple) >= 2 {
+							var ois []int
+							for oi := range triple {
+								ois = append(ois, oi)
+							}
+							sort.Ints(ois)
+							res.AddViolation(&Violation{Prop: "C34", Class: "several-transactions-replayed-twice", Sig: "C34|several-transactions-replayed-twice|" + where, Seed: seed,
+								Detail: fmt.Sprintf("crash at k=%d, recovery interrupted after its op %d of %d (%s), then restarted: variable-length records of %d different requests (operations %v, e.g. ids %d and %d) are each stored three times - the interrupted recovery had replayed more than one transaction without making any of them final", k, j, len(rlog), opLabel(rlog[j-1]), len(ois), ois, triple[ois[0]], triple[ois[1]]),
+								Replay: map[string]interface{}{"engine": "nested", "k": k, "j": j, "workload": w.Describe()}})
+						}
 					}
 					for _, s := range cleanerOrderViolations(rc2.Log) {
 						cls := strings.SplitN(s, ":", 2)[0]
